@@ -503,6 +503,7 @@ void GlobalGraph::deleteNode(Graph::NodeId node)
     throw Exception("GlobalGraph::deleteNode : no node to erase " + TextTools::toString(node));
 
   nodeStructure_.erase(found);
+  notifyDeletedNodes(vector<Graph::NodeId>(1, node));
 
   this->topologyHasChanged_();
 }
